@@ -104,6 +104,10 @@ func c15Monitor(l *h.Log, topStatic bool, res *CaseResult) [][2]string {
 				if e.Cost != 100 {
 					add("tload-cost", fmt.Sprintf("TLOAD charged %d gas (EIP-1153: 100)", e.Cost))
 				}
+				if bad, cls := faulted(); bad {
+					// (its gas and stack needs were met: the step was announced with its cost and an operand)
+					add("tload-refused", fmt.Sprintf("TLOAD at pc %d failed with %q (static=%v): a transient load is a read and must succeed in every context", e.PC, cls, f.static))
+				}
 				want := ts[tkey{e.Addr, common.Hash(e.Stack[n-1].Bytes32())}]
 				pc, addr := e.PC, e.Addr
 				hgt := n
